@@ -3,35 +3,38 @@ import WindVerif.Proofs.PoolSafe
 import WindVerif.Proofs.PoolLiveAux0
 import WindVerif.Proofs.PoolLiveAux9
 import WindVerif.Proofs.PoolLiveAux13
+import WindVerif.Proofs.PoolLiveMid
 /-! Liveness of the pool model (C02): no deadlock and termination, under every interleaving.
 
 The development is in `PoolLiveAux0` … `PoolLiveAux13`: the schedule of the former D19 — D19 repaired: it now runs on to
 `done` — (`Aux0`), the liveness invariant `LiveInv`
 (`Aux1`), the progress argument from the invariants (`Aux2`), the preservation of `LiveInv` by the steps of the workers
 (`Aux3`, `Aux4`), the feeder and the replace thread (`Aux5`) and the consumer (`Aux6`–`Aux8`), the initial state
-(`Aux9`), and the termination measure `meas` with its decrease along every step (`Aux10`–`Aux13`). -/
+(`Aux9`), the termination measure `meas` with its decrease along every step (`Aux10`–`Aux13`), and the invariant
+`MidI` about the mid-call `until_all_ready()` (`PoolLiveMid`). -/
 namespace WindVerif.Pool
 
-/-- the three invariants along a run -/
+/-- the invariants along a run -/
 theorem live_run : ∀ (sched : List Tid) (s s' : St), NoFaults s.cfg → WellCfg s.cfg → SafeInv s → LInv s → LiveInv s →
-    run s sched = some s' → SafeInv s' ∧ LInv s' ∧ LiveInv s' ∧ s'.cfg = s.cfg
-  | [], s, s', _, _, hS, hL, hV, hr => by
+    MidI s → run s sched = some s' → SafeInv s' ∧ LInv s' ∧ LiveInv s' ∧ MidI s' ∧ s'.cfg = s.cfg
+  | [], s, s', _, _, hS, hL, hV, hM, hr => by
     simp only [run, Option.some.injEq] at hr
-    subst hr; exact ⟨hS, hL, hV, rfl⟩
-  | t :: ts, s, s', hf, hw, hS, hL, hV, hr => by
+    subst hr; exact ⟨hS, hL, hV, hM, rfl⟩
+  | t :: ts, s, s', hf, hw, hS, hL, hV, hM, hr => by
     unfold run at hr
     split at hr
     · cases hr
     · rename_i s1 hs1
       have hc := step_cfg hs1
-      obtain ⟨h1, h2, h3, h4⟩ := live_run ts s1 s' (by rw [hc]; exact hf) (by rw [hc]; exact hw)
-        (safe_step s s1 t hf hS hs1) (LInv_step hL hs1) (LiveInv_step hf hw hS hL hV hs1) hr
-      exact ⟨h1, h2, h3, h4.trans hc⟩
+      obtain ⟨h1, h2, h3, h4, h5⟩ := live_run ts s1 s' (by rw [hc]; exact hf) (by rw [hc]; exact hw)
+        (safe_step s s1 t hf hS hs1) (LInv_step hL hs1) (LiveInv_step hf hw hS hL hV hM hs1)
+        (MidI_step hf hw hS hL hV hM hs1) hr
+      exact ⟨h1, h2, h3, h4, h5.trans hc⟩
 
 theorem live_reach (cfg : Cfg) (hw : WellCfg cfg) (hf : NoFaults cfg) (s : St) (h : Reach cfg s) :
-    SafeInv s ∧ LInv s ∧ LiveInv s ∧ s.cfg = cfg := by
+    SafeInv s ∧ LInv s ∧ LiveInv s ∧ MidI s ∧ s.cfg = cfg := by
   obtain ⟨sched, hs⟩ := h
-  exact live_run sched (init cfg) s hf hw (safe_init cfg) (LInv_init cfg) (LiveInv_init cfg hw) hs
+  exact live_run sched (init cfg) s hf hw (safe_init cfg) (LInv_init cfg) (LiveInv_init cfg hw) (MidI_init cfg) hs
 
 /-- no deadlock: in every reachable state in which the caller's program (enter, all its calls, exit) is not over, some
 thread can move — the consumer is never left blocked on a result that will not come, the feeder never on a full queue
@@ -39,24 +42,25 @@ nobody drains, `__exit__` never on its stop orders (D19 repaired: whatever the b
 either a live worker takes a stop order or, everybody listed having an exit code, the loop of stop orders is left) -/
 theorem imap_no_deadlock (cfg : Cfg) (hw : WellCfg cfg) (hf : NoFaults cfg) (s : St) (h : Reach cfg s)
     (hnd : s.cpc ≠ .done) : ∃ t, (step s t).isSome := by
-  obtain ⟨hS, hL, hV, hc⟩ := live_reach cfg hw hf s h
-  exact progress hS hL hV (by rw [hc]; exact hw) hnd
+  obtain ⟨hS, hL, hV, hM, hc⟩ := live_reach cfg hw hf s h
+  exact progress hS hL hV hM (by rw [hc]; exact hw) hnd
 
 /-- termination: there is a bound on the length of every execution of a configuration, whatever the schedule — however
 slowly the input iterator, a worker or the caller is scheduled, nothing spins -/
 theorem meas_run : ∀ (sched : List Tid) (s s' : St), NoFaults s.cfg → WellCfg s.cfg → SafeInv s → LInv s → LiveInv s →
-    run s sched = some s' → sched.length + meas s' ≤ meas s
-  | [], s, s', _, _, _, _, _, hr => by
+    MidI s → run s sched = some s' → sched.length + meas s' ≤ meas s
+  | [], s, s', _, _, _, _, _, _, hr => by
     simp only [run, Option.some.injEq] at hr
     subst hr; simp
-  | t :: ts, s, s', hf, hw, hS, hL, hV, hr => by
+  | t :: ts, s, s', hf, hw, hS, hL, hV, hM, hr => by
     unfold run at hr
     split at hr
     · cases hr
     · rename_i s1 hs1
       have hc := step_cfg hs1
       have h1 := meas_run ts s1 s' (by rw [hc]; exact hf) (by rw [hc]; exact hw)
-        (safe_step s s1 t hf hS hs1) (LInv_step hL hs1) (LiveInv_step hf hw hS hL hV hs1) hr
+        (safe_step s s1 t hf hS hs1) (LInv_step hL hs1) (LiveInv_step hf hw hS hL hV hM hs1)
+        (MidI_step hf hw hS hL hV hM hs1) hr
       have h2 := meas_step hf hw hS hL hV hs1
       simp only [List.length_cons]
       omega
@@ -65,7 +69,7 @@ theorem imap_terminates (cfg : Cfg) (hw : WellCfg cfg) (hf : NoFaults cfg) :
     ∃ bound, ∀ sched s, run (init cfg) sched = some s → sched.length ≤ bound := by
   refine ⟨meas (init cfg), ?_⟩
   intro sched s hr
-  have := meas_run sched (init cfg) s hf hw (safe_init cfg) (LInv_init cfg) (LiveInv_init cfg hw) hr
+  have := meas_run sched (init cfg) s hf hw (safe_init cfg) (LInv_init cfg) (LiveInv_init cfg hw) (MidI_init cfg) hr
   omega
 
 /-- hence every maximal execution (one that cannot be extended) ends with the caller finished -/
